@@ -509,20 +509,22 @@ def run(ctx):
     nproc = 16 if ctx.thorough else 8
     if not ctx.thorough:
         bound = 2
-        specs2 = plain_specs(ctx, 2, 4, sp2[:2] if sp2[0] != sp2[1] else sp2, ["dflt", "large"])
+        # one of the two spellings always goes through the symlinked directory
+        sp_q = [("abs", "sym"), ("rel", "sym"), ("sym", "abs")][seed % 3]
+        specs2 = plain_specs(ctx, 2, 4, list(sp_q), ["dflt", "large"])
         parts = [(2, bound, c) for c in chunks(specs2, nproc)]
         ctx.pmap(part_plain, parts, nproc=nproc)
         fss = fault_specs(ctx, ["dflt", "large"])
         ctx.pmap(part_fault, [(1, c) for c in chunks(fss, nproc)], nproc=nproc)
-        ctx.bound = {"processes": 2, "sessions_total": 4, "preemptions": bound, "fault_family_preemptions": 1, "faults_per_execution": 1, "path_spellings": sp2[:2]}
+        ctx.bound = {"processes": 2, "sessions_total": 4, "preemptions": bound, "fault_family_preemptions": 1, "faults_per_execution": 1, "path_spellings": list(sp_q) + ["rel+sym in the fault family"]}
     else:
         specs2 = plain_specs(ctx, 2, 4, sp2[:2], ["dflt", "large"])
         ctx.pmap(part_plain, [(2, 3, c) for c in chunks(specs2, nproc)], nproc=nproc)
-        specs3 = plain_specs(ctx, 3, 5, sp2, ["dflt", "large", "dflt"])
+        specs3 = plain_specs(ctx, 3, 4, sp2, ["dflt", "large", "dflt"])
         ctx.pmap(part_plain, [(3, 2, c) for c in chunks(specs3, nproc * 4)], nproc=nproc)
         fss = fault_specs(ctx, ["dflt", "large"])
         ctx.pmap(part_fault, [(2, c) for c in chunks(fss, nproc * 2)], nproc=nproc)
-        ctx.bound = {"processes": "2 (bound 3) and 3 (bound 2)", "sessions_total": "4 / 5", "fault_family_preemptions": 2, "faults_per_execution": 1, "path_spellings": sp2}
+        ctx.bound = {"processes": "2 (bound 3) and 3 (bound 2)", "sessions_total": "4 / 4", "fault_family_preemptions": 2, "faults_per_execution": 1, "path_spellings": sp2}
 
 
 def replay(ctx, case):
